@@ -96,6 +96,52 @@ pub fn dispatch(parts: &[&str]) -> String {
                 Err(_) => "err".to_string(),
             }
         }
+        "btree_shape" => {
+            // shape of BTreeSlice over n leaves 0..n-1 folded with a parenthesising closure
+            let n: usize = parts[1].parse().unwrap();
+            let v: Vec<String> = (0..n).map(|i| format!("{},", i)).collect();
+            let out = simfony::array::BTreeSlice::from_slice(&v).fold(|a, b| format!("({}{})", a, b));
+            format!("ok {}", out.unwrap_or_default())
+        }
+        "partition_shape" => {
+            let n: usize = parts[1].parse().unwrap();
+            let bound: usize = parts[2].parse().unwrap();
+            let v: Vec<String> = (0..n).map(|i| format!("{},", i)).collect();
+            let b = match simfony::num::NonZeroPow2Usize::new(bound) { Some(b) => b, None => return "err bound".to_string() };
+            let p = simfony::array::Partition::from_slice(&v, b);
+            let complete = p.is_complete();
+            let out = p.fold(|block: &[String], size: usize| format!("[{}:{}]", block.join(""), size), |a, b| format!("({}{})", a, b));
+            format!("ok {} complete={}", out, complete)
+        }
+        "struct_type" => {
+            let ty = match simfony::ResolvedType::parse_from_str(&unhex(parts[1])) {
+                Ok(t) => t,
+                Err(e) => return format!("type-err {}", e.to_string().replace('\n', " ")),
+            };
+            let st = simfony::types::StructuralType::from(&ty);
+            format!("ok {}", st)
+        }
+        "struct_value" => {
+            // struct_value <value text> <type text>: structural form: type check, compact bits, reconstruct round trip, print-parse round trip
+            let ty = match simfony::ResolvedType::parse_from_str(&unhex(parts[2])) {
+                Ok(t) => t,
+                Err(e) => return format!("type-err {}", e.to_string().replace('\n', " ")),
+            };
+            let v = match simfony::Value::parse_from_str(&unhex(parts[1]), &ty) {
+                Ok(v) => v,
+                Err(e) => return format!("value-err {}", e.to_string().replace('\n', " ")),
+            };
+            let sv = simfony::value::StructuralValue::from(&v);
+            let st = simfony::types::StructuralType::from(&ty);
+            let well_typed = sv.is_of_type(&st);
+            let bits: String = sv.as_ref().iter_compact().map(|b| if b { '1' } else { '0' }).collect();
+            let rec = simfony::Value::reconstruct(&sv, &ty);
+            let round = rec.as_ref() == Some(&v);
+            let printed = v.to_string();
+            let reparsed = simfony::Value::parse_from_str(&printed, &ty).ok();
+            let pp = reparsed.as_ref() == Some(&v);
+            format!("ok typed={} bits={} reconstruct={} printparse={} printed={}", well_typed, bits, round, pp, printed)
+        }
         "run" => {
             // run <src> <args module> <witness module> <debug 0|1>
             run_program(&unhex(parts[1]), &unhex(parts[2]), &unhex(parts[3]), parts.get(4) == Some(&"1"))
